@@ -119,7 +119,7 @@ func c11NumInst(tier string) int {
 	if tier == "thorough" {
 		return 120
 	}
-	return 8
+	return 12
 }
 
 func c11NumCases(tier string) int { return c11NumInst(tier) * len(concGs) }
@@ -147,7 +147,14 @@ func runC11(ctx *Ctx, idx int) {
 	}
 	keys := ks.Keys
 	n := len(keys)
-	vals := genVals(r, "i32", n, r.Intn(3))
+	// value kinds rotate: the encoder is part of the shared instance (a
+	// TypeEncoder or any user encoder is called concurrently by every reader)
+	vkind := []string{"i32", "structLE", "str16", "i32", "structBE", "i64", "bytesN", "none", "rawstr", "u16"}[(instNo/5+instNo)%10]
+	if kindNo >= 3 && (vkind == "str16" || vkind == "none" || vkind == "rawstr") {
+		vkind = "structLE" // the old layouts need fixed-size values
+	}
+	vals := genVals(r, vkind, n, r.Intn(3))
+	ctx.Count("valkind:"+vkind, 1)
 	enc := vals.Encoder()
 	var st *trie.SlimTrie
 	var o OptSet
@@ -212,7 +219,7 @@ func runC11(ctx *Ctx, idx int) {
 		}
 		qs = sel
 	}
-	ops := buildConcOps(st, qs, o.Complete(), true, n <= 300)
+	ops := buildConcOps(st, qs, o.Complete(), vkind == "i32", n <= 300)
 
 	// ---- phase 1: canonical results, sequentially
 	canon := make([]string, len(ops))
@@ -423,7 +430,7 @@ func init() {
 				missed = append(missed, "inflight>=2 for at least half of the operations")
 			}
 			for _, g := range []string{"instance:fresh-complete", "instance:fresh-filter", "instance:loaded-current", "instance:loaded-0.5.10-allpref", "instance:loaded-3sec",
-				"iterator_sets_interleaved_in_one_goroutine", "iterator_sets_across_goroutines"} {
+				"iterator_sets_interleaved_in_one_goroutine", "iterator_sets_across_goroutines", "valkind:i32", "valkind:structLE", "valkind:str16"} {
 				if m.C(g) == 0 {
 					missed = append(missed, g)
 				}
